@@ -53,6 +53,8 @@ def plan(tier, seed):
     for client in ("sync", "async"):
         for i, chunk in enumerate(common.split(lens, 4)):
             specs.append({"name": f"req-{client}-{i}", "kind": "request", "client": client, "lens": chunk})
+    for client in ("sync", "async"):
+        specs.append({"name": f"req-wide-{client}", "kind": "request_wide", "client": client, "n": 60 if tier == "quick" else 1500})
     for i in range(4):
         specs.append({"name": f"reply-{i}", "kind": "reply", "n": 250 if tier == "quick" else 8000})
     specs.append({"name": "reply-ntlm", "kind": "reply_ntlm", "n": 25 if tier == "quick" else 500})
@@ -61,7 +63,7 @@ def plan(tier, seed):
 
 def finalize(agg, tier):
     r = []
-    for c in ("requests_decoded_by_receiver", "iov_lists_checked", "replies_checked", "ntlm_replies_checked", "hresult_replies_checked"):
+    for c in ("requests_decoded_by_receiver", "iov_lists_checked", "replies_checked", "ntlm_replies_checked", "hresult_replies_checked", "multi_request_connections"):
         if agg.counter(c) == 0:
             r.append(f"monitor never reached: {c}")
     if len(agg.sets.get("stub_mod16", ())) < 16:
@@ -80,7 +82,7 @@ def ack(ptype: int, sign: bool, token: bytes) -> bytes:
     )
 
 
-def verify_request(rec: Recorder, wire: bytes, ctx: tr.ScriptedContext, stub: bytes, vt_bytes: t.Optional[bytes], sig: int, sign: bool, wit: dict) -> t.Optional[dict]:
+def verify_request(rec: Recorder, wire: bytes, ctx: tr.ScriptedContext, stub: bytes, vt_bytes: t.Optional[bytes], sig: int, sign: bool, wit: dict, seq: int = 0) -> t.Optional[dict]:
     """The independent receiver + IOV monitor. Returns decoded request or None."""
     bad = lambda mech, msg: rec.violation(mech, msg, wit)  # noqa: E731
     try:
@@ -130,11 +132,11 @@ def verify_request(rec: Recorder, wire: bytes, ctx: tr.ScriptedContext, stub: by
     if len(body) != off - so:
         bad("sealed-region-vs-wire", f"sealed region {len(body)} bytes but wire stub region {off - so} bytes")
     # wire body must be the seal of the region, header/trailer in clear, signature = MAC over signed buffers
-    if wire[so:off] != ctx.keystream_xor(body, 0):
+    if wire[so:off] != ctx.keystream_xor(body, seq):
         bad("wire-body-not-sealed", "stub region on the wire is not the security context's output for the region")
     if len(body) and wire[so:off] == body:
         bad("wire-body-cleartext", "stub region travels in clear")
-    exp_sig = ctx.mac(0, [hdr, body, trl] if sign else [body])
+    exp_sig = ctx.mac(seq, [hdr, body, trl] if sign else [body])
     if wire[off + 8 :] != exp_sig:
         bad("wire-signature", "signature on the wire is not the security context's signature")
     if (m["auth"]["type"], m["auth"]["level"], m["auth"]["ctx"]) != (10, 6, 0):
@@ -224,6 +226,80 @@ def run_request(spec, rec: Recorder):
                         rec.case((n, use_vt, sig, sign, client_kind))
         rec.sample({"client": client_kind, "stub_lengths": spec["lens"][:8], "vt": [False, True], "sig": SIGS, "sign": [False, True], "last_wire_request": state["req"]})
         rec.mark_exhaustive(f"stub lengths {spec['lens'][0]}..{spec['lens'][-1]} (listed) x vt x sig x sign for {client_kind}")
+    finally:
+        loop.close()
+
+
+def run_request_wide(spec, rec: Recorder):
+    """Outside the dense sweep: large stubs (around 1 KiB, 4 KiB, the 5840 max fragment, tens of KiB), other signature
+    sizes, and SEVERAL requests on one connection (per-connection state: call ids, cached sizes, sequence numbers)."""
+    from dpapi_ng import _client as cl
+
+    rng = common.rng_for(ID, spec)
+    client_kind = spec["client"]
+    vt_obj = cl._VERIFICATION_TRAILER
+    vt_ref = rrpc.enc_vt(online.EXPECTED_VT)
+    loop = asyncio.new_event_loop()
+    asyncio.set_event_loop(loop)
+    big = [1000, 1023, 1024, 1025, 4090, 4095, 4096, 4097, 5790, 5839, 5840, 5841, 16384, 30001, 60000]
+    try:
+        for case in range(spec["n"]):
+            sig = rng.choice([12, 16, 20, 32, 64, 76, 128])
+            sign = rng.random() < 0.5
+            ctx = tr.ScriptedContext((b"C1", b"C2"), 2, sig)
+            server = tr.ScriptedContext((), 0, sig)
+            state = {"n": 0, "reqs": []}
+
+            def handler(data, state=state, sign=sign, server=server, sig=sig):
+                i = state["n"]
+                state["n"] += 1
+                if i == 0:
+                    return [ack(rrpc.BIND_ACK, sign, b"S1")]
+                if i == 1:
+                    return [ack(rrpc.ALTER_CONTEXT_RESP, sign, b"")]
+                state["reqs"].append(data)
+                body = b"\x11" * 16
+                header = rrpc.header(rrpc.RESPONSE, FL, 24 + len(body) + 8 + sig, sig, int.from_bytes(data[12:16], "little")) + struct.pack("<IHBB", len(body), 0, 0, 0)
+                trailer = struct.pack("<BBBBI", 10, 6, 0, 0, 0)
+                st = BT.sign_only if sign else BT.data_readonly
+                res = server.wrap_iov([(st, header), body, (st, trailer), BT.header], encrypt=True, qop=None)
+                return [header + res.buffers[1].data + trailer + res.buffers[3].data]
+
+            stubs = [rng.randbytes(rng.choice(big + [rng.randrange(0, 400)])) for _ in range(rng.choice([1, 2, 3, 5]))]
+            vts = [rng.random() < 0.5 for _ in stubs]
+            wit = {"sig": sig, "sign": sign, "client": client_kind, "stub_lens": [len(x) for x in stubs], "vt": vts, "case": case, "shard": spec["name"]}
+            try:
+                if client_kind == "sync":
+                    c = make_client("sync", tr.FakeSocket(handler), ctx)
+                    c.bind(cl._ISD_KEY_CONTEXTS)
+                    ctx.log.clear()
+                    for st_, v_ in zip(stubs, vts):
+                        c.request(0, 0, st_, verification_trailer=vt_obj if v_ else None)
+                else:
+                    c = make_client("async", tr.FakeStream(handler, eof_after_each_reply=False), ctx)
+
+                    async def go():
+                        await c.bind(cl._ISD_KEY_CONTEXTS)
+                        ctx.log.clear()
+                        for st_, v_ in zip(stubs, vts):
+                            await c.request(0, 0, st_, verification_trailer=vt_obj if v_ else None)
+
+                    loop.run_until_complete(asyncio.wait_for(go(), 60))
+            except Exception as e:
+                rec.violation("request-exception", f"{type(e).__name__}: {e} ({wit})", wit)
+                continue
+            if len(state["reqs"]) != len(stubs):
+                rec.violation("request-not-sent", f"{len(state['reqs'])} request PDUs for {len(stubs)} request() calls", wit)
+                continue
+            wraps = [e for e in ctx.log if e[0] == "wrap"]
+            for k, (wire, st_, v_) in enumerate(zip(state["reqs"], stubs, vts)):
+                sub = tr.ScriptedContext((), 0, sig)
+                sub.log = [wraps[k]] if k < len(wraps) else []
+                verify_request(rec, wire, sub, st_, vt_ref if v_ else None, sig, sign, dict(wit, request_index=k), seq=k)
+                rec.seen("stub_mod16", len(st_) % 16)
+            rec.count("multi_request_connections" if len(stubs) > 1 else "single_request_connections")
+            rec.case(("wide", case, client_kind, tuple(len(x) for x in stubs), sig, sign))
+        rec.sample({"kind": "wide request framing", "client": client_kind, "example": wit})
     finally:
         loop.close()
 
@@ -329,7 +405,7 @@ def run_reply_ntlm(spec, rec: Recorder):
 def run_shard(spec, rec: Recorder):
     if not common.calibrate(rec, "rpc", "gkdi", "cms"):
         return
-    {"request": run_request, "reply": run_reply, "reply_ntlm": run_reply_ntlm}[spec["kind"]](spec, rec)
+    {"request": run_request, "request_wide": run_request_wide, "reply": run_reply, "reply_ntlm": run_reply_ntlm}[spec["kind"]](spec, rec)
 
 
 def replay(body, rec: Recorder):
@@ -337,6 +413,8 @@ def replay(body, rec: Recorder):
     if "stub_len" in w:
         spec = {"name": "replay", "seed": body["seed"], "kind": "request", "client": w["client"], "lens": [w["stub_len"]]}
         run_request(spec, rec)
+    elif "stub_lens" in w:
+        run_request_wide({"name": w["shard"], "seed": body["seed"], "kind": "request_wide", "client": w["client"], "n": 60 if body["tier"] == "quick" else 1500}, rec)
     else:
         q = body["tier"] == "quick"
         kind = "reply_ntlm" if body["shard"] == "reply-ntlm" else "reply"
